@@ -1079,27 +1079,8 @@ Qed.
 Lemma bits_val_testbit bs i : (i < length bs)%nat -> N.testbit (bits_val bs) (N.of_nat i) = nth i bs false.
 Proof. intros H. rewrite <- (nbits_testbit (length bs) (bits_val bs) i H). now rewrite nbits_bits_val. Qed.
 
-Lemma ty_ne_tuple l : ty_ne (TTuple l) = match l with [] => false | _ => true end && forallb ty_ne l.
+Lemma ty_good_tuple l : ty_good (TTuple l) = forallb ty_good l.
 Proof. reflexivity. Qed.
-Lemma ty_good_tuple l : ty_good (TTuple l) = match l with [] => false | _ => true end && forallb ty_good l.
-Proof. reflexivity. Qed.
-
-Lemma sub_type_ne : forall p t t', ty_ne t = true -> sub_type t p = Some t' -> ty_ne t' = true.
-Proof.
-  induction p as [|i q IH]; intros t t' Hok H; cbn [sub_type] in H; [now injection H as <-|].
-  destruct t as [|w|i0 f0| |l]; try discriminate;
-    try (destruct (_ <? _)%nat; [|discriminate]; now apply (IH TBool)).
-  destruct (nth_error l i) as [ti|] eqn:E; [|discriminate]. apply (IH ti); [|exact H].
-  rewrite ty_ne_tuple in Hok. apply andb_true_iff in Hok as [_ Hok]. rewrite forallb_forall in Hok.
-  apply Hok. eapply nth_error_In; eassumption.
-Qed.
-
-Lemma ty_good_ne : forall t, ty_good t = true -> ty_ne t = true.
-Proof.
-  induction t as [|w|i f| |l IH] using ty_ind2; intros H; try reflexivity.
-  rewrite ty_good_tuple in H. rewrite ty_ne_tuple. apply andb_true_iff in H as [H1 H2]. rewrite H1. cbn [andb].
-  rewrite forallb_forall in H2 |- *. rewrite Forall_forall in IH. intros x Hx. apply IH; [exact Hx|now apply H2].
-Qed.
 
 Section Sound.
   Variable num : sname -> nat.
@@ -1177,24 +1158,21 @@ Section Sound.
     - rewrite <- (map_beval_sym (s :: s' :: bv)), <- (flat_syms (s :: s' :: bv)). reflexivity.
   Qed.
 
-  (* no bound type has an empty tuple inside *)
-  Definition env_ne (G : env) : Prop := forall x t bv, lookup G x = Some (t, bv) -> ty_ne t = true.
-
-  Lemma trans_sub_sound G V x p r v0 v : env_ok G V -> env_canon G -> env_ne G ->
+  Lemma trans_sub_sound G V x p r v0 v : env_ok G V -> env_canon G -> sub_ne G (ESub x p) = true ->
     trans_sub num G x p = Some r -> lookup V x = Some v0 -> sub_val v0 p = Some v -> sem rho r v.
   Proof.
-    intros Hok Hcan Htok Ht Hv0 Hv. unfold trans_sub in Ht.
+    intros Hok Hcan Hsn Ht Hv0 Hv. unfold trans_sub in Ht. cbn [sub_ne] in Hsn.
     destruct p as [|i q]; [discriminate|]. set (p := i :: q) in *.
     destruct (lookup G x) as [[t bv]|] eqn:E; [|discriminate].
     destruct (Hok _ _ _ E) as (v' & Hv' & Hd). rewrite Hv0 in Hv'. injection Hv' as <-.
     rewrite (Hcan _ _ _ E) in Hd.
-    apply obind_some in Ht as (t' & Hty & Ht).
+    apply obind_some in Ht as (t' & Hty & Ht). rewrite Hty in Hsn.
     pose proof (sub_walk p t [x] v0 t' v Hd Hty Hv) as Hw. change ([x] ++ p) with (x :: p) in Hw.
-    pose proof (sub_type_ne p t t' (Htok _ _ _ E) Hty) as Ok'.
+    assert (Ok' : t' <> TTuple []) by (intros ->; discriminate).
     assert (Hr : forall T, T = t' -> T <> TBool -> T <> TTuple [] ->
               r = (T, Nd (map (fun s => L (sym num s)) (arg_names (x :: p) T)))).
     { intros T -> N1 N2. destruct t' as [|w|i0 f0| |[|a l]]; try congruence; now injection Ht as <-. }
-    unfold sem, den. destruct t' as [|w|i0 f0| |[|a l]]; try discriminate Ok'.
+    unfold sem, den. destruct t' as [|w|i0 f0| |[|a l]]; try congruence.
     - injection Ht as <-. exact Hw.
     - rewrite (Hr _ eq_refl) by discriminate. cbn [fst snd]. rewrite flat_syms, map_beval_sym. exact Hw.
     - rewrite (Hr _ eq_refl) by discriminate. cbn [fst snd]. rewrite flat_syms, map_beval_sym. exact Hw.
@@ -1261,17 +1239,17 @@ Section Main.
   Variables (G : env) (V : venv).
   Hypothesis Hok : env_ok num rho G V.
   Hypothesis Hcan : env_canon G.
-  Hypothesis Htok : env_ne G.
 
   Definition sound_at (e : pexp) : Prop :=
-    forall r v, trans_exp num G e = Some r -> eval_exp V e = Some v -> sem rho r v.
+    forall r v, sub_ne G e = true -> trans_exp num G e = Some r -> eval_exp V e = Some v -> sem rho r v.
 
-  Lemma trans_list_sound l : Forall sound_at l ->
+  Lemma trans_list_sound l : Forall sound_at l -> forallb (sub_ne G) l = true ->
     forall rs vs, trans_list num G l = Some rs -> eval_list V l = Some vs -> Forall2 (sem rho) rs vs.
   Proof.
-    induction 1 as [|e l He _ IH]; intros rs vs Ht Hv; cbn [trans_list eval_list] in Ht, Hv.
+    induction 1 as [|e l He _ IH]; intros Hsc rs vs Ht Hv; cbn [trans_list eval_list] in Ht, Hv.
     - injection Ht as <-. injection Hv as <-. constructor.
-    - destruct (trans_exp num G e) as [a|] eqn:Ea; [|discriminate].
+    - cbn [forallb] in Hsc. apply andb_true_iff in Hsc as [S1 S2].
+      destruct (trans_exp num G e) as [a|] eqn:Ea; [|discriminate].
       destruct (trans_list num G l) as [b|] eqn:Eb; [|discriminate]. injection Ht as <-.
       destruct (eval_exp V e) as [va|] eqn:Eva; [|discriminate].
       destruct (eval_list V l) as [vb|] eqn:Evb; [|discriminate]. injection Hv as <-.
@@ -1281,7 +1259,7 @@ Section Main.
   Theorem trans_exp_sound_at : forall e, sound_at e.
   Proof.
     induction e as [x|x p|op l IH|op a IHa|c t f IHc IHt IHf|c|l|l IH|op a b IHa IHb|op a b IHa IHb|t c|a IHa|a IHa|]
-      using pexp_ind2; intros r v Ht Hv.
+      using pexp_ind2; intros r v Hsc Ht Hv; cbn [sub_ne] in Hsc.
     - cbn [eval_exp] in Hv. eapply trans_name_sound; eassumption.
     - cbn [eval_exp] in Hv. cbn [trans_exp] in Ht.
       destruct p as [|i q]; [discriminate|]. apply obind_some in Hv as (v0 & Hv0 & Hv).
@@ -1294,7 +1272,8 @@ Section Main.
     - cbn [trans_exp] in Ht. cbn [eval_exp] in Hv. 
       apply obind_some in Ht as (ra & Hra & Ht). apply obind_some in Hv as (va & Hva & Hv).
       eapply trans_un_sound; try eassumption. now apply IHa.
-    - cbn [trans_exp] in Ht. cbn [eval_exp] in Hv. 
+    - cbn [trans_exp] in Ht. cbn [eval_exp] in Hv.
+      apply andb_true_iff in Hsc as [Hsc S3]. apply andb_true_iff in Hsc as [S1 S2].
       apply obind_some in Ht as (rc & Hrc & Ht). apply obind_some in Ht as (rt & Hrt & Ht).
       apply obind_some in Ht as (rf & Hrf & Ht).
       apply obind_some in Hv as (vc & Hvc & Hv). apply obind_some in Hv as (vt & Hvt & Hv).
@@ -1310,11 +1289,11 @@ Section Main.
       change (eval_exp V (ETuple l)) with (option_map VT (eval_list V l)) in Hv.
       apply option_map_some in Ht as (rs & Hrs & ->). apply option_map_some in Hv as (vs & Hvs & ->).
       apply tuple_sound. eapply trans_list_sound; eassumption.
-    - cbn [trans_exp] in Ht. cbn [eval_exp] in Hv.
+    - cbn [trans_exp] in Ht. cbn [eval_exp] in Hv. apply andb_true_iff in Hsc as [S1 S2].
       apply obind_some in Ht as (ra & Hra & Ht). apply obind_some in Ht as (rb & Hrb & Ht).
       apply obind_some in Hv as (va & Hva & Hv). apply obind_some in Hv as (vb & Hvb & Hv).
       eapply trans_cmp_sound; try eassumption; [now apply IHa|now apply IHb].
-    - cbn [trans_exp] in Ht. cbn [eval_exp] in Hv.
+    - cbn [trans_exp] in Ht. cbn [eval_exp] in Hv. apply andb_true_iff in Hsc as [S1 S2].
       apply obind_some in Ht as (ra & Hra & Ht). apply obind_some in Ht as (rb & Hrb & Ht).
       apply obind_some in Hv as (va & Hva & Hv). apply obind_some in Hv as (vb & Hvb & Hv).
       eapply trans_bin_sound; try eassumption; [now apply IHa|now apply IHb].
@@ -1332,9 +1311,9 @@ End Main.
 
 (* every expression of the language, every environment, every assignment *)
 Theorem trans_exp_sound num rho G V e r v :
-  env_ok num rho G V -> env_canon G -> env_ne G ->
+  env_ok num rho G V -> env_canon G -> sub_ne G e = true ->
   trans_exp num G e = Some r -> eval_exp V e = Some v -> den rho r = Some v.
-Proof. intros Hok Hcan Htok Ht Hv. exact (trans_exp_sound_at num rho G V Hok Hcan Htok e r v Ht Hv). Qed.
+Proof. intros Hok Hcan Hsn Ht Hv. exact (trans_exp_sound_at num rho G V Hok Hcan e r v Hsn Ht Hv). Qed.
 
 (* ================================================================== *)
 (* statements                                                          *)
@@ -1700,10 +1679,8 @@ Proof.
   apply andb_true_iff in H as [H1 H2]. f_equal; [now apply S|now apply IH].
 Qed.
 
-(* every bound type is ty_good: no empty tuple, no sized component of fewer than 2 bits *)
+(* every bound type is ty_good: no sized component of fewer than 2 bits *)
 Definition env_good (G : env) : Prop := forall x t bv, lookup G x = Some (t, bv) -> ty_good t = true.
-Lemma env_good_ne G : env_good G -> env_ne G.
-Proof. intros H x t bv E. apply ty_good_ne. exact (H x t bv E). Qed.
 
 Lemma to_exp_long num bv : (2 <= length bv)%nat ->
   to_exp num bv = Some (Nd (map (fun s => L (sym num s)) bv)).
@@ -1716,13 +1693,13 @@ Section Wf.
   Hypothesis Hok : env_ok num rho G V.
   Hypothesis Hcan : env_canon G.
   Hypothesis Hgood : env_good G.
-  Let Htok : env_ne G := env_good_ne G Hgood.
 
   (* every translated value that has a meaning is shaped as its type *)
-  Theorem trans_exp_wf : forall e r v, trans_exp num G e = Some r -> eval_exp V e = Some v -> wf_res r.
+  Theorem trans_exp_wf : forall e r v, sub_ne G e = true ->
+    trans_exp num G e = Some r -> eval_exp V e = Some v -> wf_res r.
   Proof.
     induction e as [x|x p|op l IH|op a IHa|c t f IHc IHt IHf|c|l|l IH|op a b IHa IHb|op a b IHa IHb|t c|a IHa|a IHa|]
-      using pexp_ind2; intros r v Ht Hv.
+      using pexp_ind2; intros r v Hsn Ht Hv.
     - (* Name *)
       cbn [trans_exp] in Ht. destruct (lookup G x) as [[t bv]|] eqn:E; [|discriminate].
       apply option_map_some in Ht as (tr & Hx & ->). pose proof (Hcan _ _ _ E) as ->. pose proof (Hgood _ _ _ E) as Ok.
@@ -1759,14 +1736,16 @@ Section Wf.
         (option_map (fun rs => (TTuple (map fst rs), Nd (map snd rs))) (trans_list num G l)) in Ht.
       apply option_map_some in Ht as (rs & _ & ->). exact I.
     - (* Compare: the result is a bare expression, and its value is a bool *)
-      pose proof (trans_exp_sound num rho G V _ r v Hok Hcan Htok Ht Hv) as Hs.
+      pose proof (trans_exp_sound num rho G V _ r v Hok Hcan Hsn Ht Hv) as Hs. cbn [sub_ne] in Hsn.
+      apply andb_true_iff in Hsn as [Sa Sb].
       cbn [trans_exp] in Ht. cbn [eval_exp] in Hv.
       apply obind_some in Ht as (ra & _ & Ht). apply obind_some in Ht as (rb & _ & Ht).
       apply obind_some in Hv as (va & _ & Hv). apply obind_some in Hv as (vb & _ & Hv).
       destruct (trans_cmp_leaf _ _ _ _ Ht) as (e & He). destruct (eval_cmp_vb _ _ _ _ Hv) as (x & ->).
       apply sem_type in Hs. cbn [type_of] in Hs. unfold wf_res. rewrite <- Hs. now exists e.
     - (* BinOp *)
-      pose proof (trans_exp_sound num rho G V _ r v Hok Hcan Htok Ht Hv) as Hs.
+      pose proof (trans_exp_sound num rho G V _ r v Hok Hcan Hsn Ht Hv) as Hs. cbn [sub_ne] in Hsn.
+      apply andb_true_iff in Hsn as [Sa Sb].
       cbn [trans_exp] in Ht. cbn [eval_exp] in Hv.
       apply obind_some in Ht as (ra & Hra & Ht). apply obind_some in Ht as (rb & Hrb & Ht).
       apply obind_some in Hv as (va & Hva & Hv). apply obind_some in Hv as (vb & Hvb & Hv).
@@ -1774,16 +1753,16 @@ Section Wf.
       apply wf_of_texp. apply sem_type in Hs. unfold of_texp in Hs. cbn [fst] in Hs. rewrite <- Hs.
       destruct (eval_bin_kind _ _ _ _ _ Hv) as [(x & -> & p & q & -> & ->)|Q]; [|exact Q].
       exfalso. apply NB.
-      pose proof (trans_exp_sound num rho G V _ _ _ Hok Hcan Htok Hra Hva) as S1.
-      pose proof (trans_exp_sound num rho G V _ _ _ Hok Hcan Htok Hrb Hvb) as S2.
+      pose proof (trans_exp_sound num rho G V _ _ _ Hok Hcan Sa Hra Hva) as S1.
+      pose proof (trans_exp_sound num rho G V _ _ _ Hok Hcan Sb Hrb Hvb) as S2.
       apply sem_type in S1, S2. cbn [type_of] in S1, S2. now split.
     - cbn [trans_exp] in Ht. apply lift_some in Ht as (te & Ht & ->). apply wf_of_texp. now apply cast_const_q in Ht.
     - cbn [trans_exp] in Ht. cbn [eval_exp] in Hv.
       apply obind_some in Ht as (ra & Hra & Ht). apply obind_some in Hv as (va & Hva & _).
-      exact (trans_int_wf _ _ (IHa _ _ Hra Hva) Ht).
+      exact (trans_int_wf _ _ (IHa _ _ Hsn Hra Hva) Ht).
     - cbn [trans_exp] in Ht. cbn [eval_exp] in Hv.
       apply obind_some in Ht as (ra & Hra & Ht). apply obind_some in Hv as (va & Hva & _).
-      exact (trans_float_wf _ _ (IHa _ _ Hra Hva) Ht).
+      exact (trans_float_wf _ _ (IHa _ _ Hsn Hra Hva) Ht).
     - discriminate.
   Qed.
 End Wf.
@@ -1882,15 +1861,14 @@ Proof.
   destruct v0 as [b|w n| | |l]; try discriminate.
   - destruct (_ <? _)%nat; [|discriminate]. apply (IH (VB (N.testbit n (N.of_nat i))) v); [reflexivity|exact H].
   - destruct (nth_error l i) as [v'|] eqn:E; [|discriminate]. apply (IH v'); [|exact H].
-    unfold vgood in G0. cbn [type_of] in G0. rewrite ty_good_tuple in G0. apply andb_true_iff in G0 as [_ G0].
+    unfold vgood in G0. cbn [type_of] in G0. rewrite ty_good_tuple in G0.
     rewrite forallb_forall in G0. apply G0. apply in_map. eapply nth_error_In; eassumption.
 Qed.
 
-Lemma vgood_vt vs : vs <> [] -> Forall vgood vs -> vgood (VT vs).
+Lemma vgood_vt vs : Forall vgood vs -> vgood (VT vs).
 Proof.
-  intros Hne HF. unfold vgood. cbn [type_of]. rewrite ty_good_tuple. apply andb_true_iff. split.
-  - destruct vs; [congruence|reflexivity].
-  - apply forallb_forall. intros t Ht. apply in_map_iff in Ht as (v & <- & Hv). rewrite Forall_forall in HF. now apply HF.
+  intros HF. unfold vgood. cbn [type_of]. rewrite ty_good_tuple.
+  apply forallb_forall. intros t Ht. apply in_map_iff in Ht as (v & <- & Hv). rewrite Forall_forall in HF. now apply HF.
 Qed.
 
 Lemma eval_if_good vc vt vf v : vgood vt -> vgood vf -> eval_if vc vt vf = Some v -> vgood v.
@@ -1930,12 +1908,11 @@ Section Good.
   Hypothesis Hok : env_ok num rho G V.
   Hypothesis Hcan : env_canon G.
   Hypothesis Hgood : env_good G.
-  Let Htok : env_ne G := env_good_ne G Hgood.
 
   Definition good_at (e : pexp) : Prop :=
-    pexp_ne e = true -> forall r v, trans_exp num G e = Some r -> eval_exp V e = Some v -> vgood v.
+    sub_ne G e = true -> forall r v, trans_exp num G e = Some r -> eval_exp V e = Some v -> vgood v.
 
-  Lemma good_list l : Forall good_at l -> forallb pexp_ne l = true ->
+  Lemma good_list l : Forall good_at l -> forallb (sub_ne G) l = true ->
     forall rs vs, trans_list num G l = Some rs -> eval_list V l = Some vs -> Forall vgood vs.
   Proof.
     induction 1 as [|e l He _ IH]; intros Hn rs vs Ht Hv; cbn [trans_list eval_list] in Ht, Hv.
@@ -1948,17 +1925,11 @@ Section Good.
       constructor; [exact (He N1 _ _ Ea Eva)|exact (IH N2 _ _ eq_refl eq_refl)].
   Qed.
 
-  Lemma eval_list_nonnil l vs : eval_list V l = Some vs -> l <> [] -> vs <> [].
-  Proof.
-    destruct l as [|e l]; [congruence|]. cbn [eval_list]. destruct (eval_exp V e); [|discriminate].
-    destruct (eval_list V l); [|discriminate]. intros [= <-] _. discriminate.
-  Qed.
-
   (* the type of every value the evaluator gives to an accepted expression is ty_good *)
   Theorem trans_exp_good : forall e, good_at e.
   Proof.
     induction e as [x|x p|op l IH|op a IHa|c t f IHc IHt IHf|c|l|l IH|op a b IHa IHb|op a b IHa IHb|t c|a IHa|a IHa|]
-      using pexp_ind2; intros Hn r v Ht Hv; cbn [pexp_ne] in Hn.
+      using pexp_ind2; intros Hn r v Ht Hv; cbn [sub_ne] in Hn.
     - cbn [trans_exp] in Ht. cbn [eval_exp] in Hv. destruct (lookup G x) as [[t bv]|] eqn:E; [|discriminate].
       destruct (Hok _ _ _ E) as (v' & Hv' & Hd). rewrite Hv in Hv'. injection Hv' as <-.
       destruct (decode_type _ _ _ Hd) as [T _]. unfold vgood. rewrite T. exact (Hgood _ _ _ E).
@@ -1986,28 +1957,23 @@ Section Good.
     - cbn [eval_exp] in Hv. now apply eval_const_good in Hv.
     - cbn [eval_exp] in Hv. apply option_map_some in Hv as (vs & Hvs & ->).
       apply vgood_vt.
-      + destruct l as [|c l]; [discriminate|]. cbn [eval_const_elts] in Hvs.
-        destruct c; try discriminate; destruct (eval_const _); try discriminate;
-          destruct (eval_const_elts l); try discriminate; injection Hvs as <-; discriminate.
-      + clear Hn Ht. revert vs Hvs. induction l as [|c l IHl]; intros vs Hvs; cbn [eval_const_elts] in Hvs.
-        * injection Hvs as <-. constructor.
-        * destruct c as [b|z|neg x|cs|]; try discriminate.
-          -- destruct (eval_const (CInt z)) as [v0|] eqn:E0; [|discriminate].
-             destruct (eval_const_elts l) as [vs'|]; [|discriminate]. injection Hvs as <-.
-             constructor; [now apply eval_const_good in E0|now apply IHl].
-          -- destruct (eval_const (CFloat neg x)) as [v0|] eqn:E0; [|discriminate].
-             destruct (eval_const_elts l) as [vs'|]; [|discriminate]. injection Hvs as <-.
-             constructor; [now apply eval_const_good in E0|now apply IHl].
-          -- destruct (eval_const (CStr cs)) as [v0|] eqn:E0; [|discriminate].
-             destruct (eval_const_elts l) as [vs'|]; [|discriminate]. injection Hvs as <-.
-             constructor; [now apply eval_const_good in E0|now apply IHl].
+      clear Hn Ht. revert vs Hvs. induction l as [|c l IHl]; intros vs Hvs; cbn [eval_const_elts] in Hvs.
+      + injection Hvs as <-. constructor.
+      + destruct c as [b|z|neg x|cs|]; try discriminate.
+        * destruct (eval_const (CInt z)) as [v0|] eqn:E0; [|discriminate].
+          destruct (eval_const_elts l) as [vs'|]; [|discriminate]. injection Hvs as <-.
+          constructor; [now apply eval_const_good in E0|now apply IHl].
+        * destruct (eval_const (CFloat neg x)) as [v0|] eqn:E0; [|discriminate].
+          destruct (eval_const_elts l) as [vs'|]; [|discriminate]. injection Hvs as <-.
+          constructor; [now apply eval_const_good in E0|now apply IHl].
+        * destruct (eval_const (CStr cs)) as [v0|] eqn:E0; [|discriminate].
+          destruct (eval_const_elts l) as [vs'|]; [|discriminate]. injection Hvs as <-.
+          constructor; [now apply eval_const_good in E0|now apply IHl].
     - change (trans_exp num G (ETuple l)) with
         (option_map (fun rs => (TTuple (map fst rs), Nd (map snd rs))) (trans_list num G l)) in Ht.
       change (eval_exp V (ETuple l)) with (option_map VT (eval_list V l)) in Hv.
       apply option_map_some in Ht as (rs & Hrs & _). apply option_map_some in Hv as (vs & Hvs & ->).
-      apply andb_true_iff in Hn as [N1 N2]. apply vgood_vt.
-      + apply (eval_list_nonnil l vs Hvs). destruct l; [discriminate|discriminate].
-      + exact (good_list l IH N2 rs vs Hrs Hvs).
+      apply vgood_vt. exact (good_list l IH Hn rs vs Hrs Hvs).
     - cbn [eval_exp] in Hv. apply obind_some in Hv as (va & _ & Hv). apply obind_some in Hv as (vb & _ & Hv).
       destruct (eval_cmp_vb _ _ _ _ Hv) as (x & ->). reflexivity.
     - apply andb_true_iff in Hn as [N1 N2]. cbn [trans_exp] in Ht. cbn [eval_exp] in Hv.
@@ -2018,7 +1984,7 @@ Section Good.
     - cbn [trans_exp] in Ht. cbn [eval_exp] in Hv.
       apply obind_some in Ht as (ra & Hra & Ht). apply obind_some in Hv as (va & Hva & Hv).
       pose proof (IHa Hn _ _ Hra Hva) as Ga.
-      pose proof (trans_exp_sound num rho G V a ra va Hok Hcan Htok Hra Hva) as Hs.
+      pose proof (trans_exp_sound num rho G V a ra va Hok Hcan Hn Hra Hva) as Hs.
       destruct va as [|w n|i f n| |]; cbn [eval_int] in Hv; try discriminate; injection Hv as <-; [exact Ga|].
       pose proof (sem_type _ _ _ Hs) as T. cbn [type_of] in T. unfold trans_int in Ht. rewrite <- T in Ht.
       apply obind_some in Ht as (l & Hl & Ht).
@@ -2143,36 +2109,36 @@ Section Stmt.
     exact (Hg _ _ _ Hy).
   Qed.
 
-  (* a statement: the only per-program side condition left is seq_ok (stmt_guard) *)
+  (* a statement: the per-program side conditions are seq_ok and sub_ne (stmt_guard) *)
   Theorem trans_stmt_sound rho G V rt s ds G' V' :
     env_ok num rho G V -> env_canon G -> env_good G -> ty_good rt = true ->
-    stmt_ne s = true -> stmt_guard num G rt s = true ->
+    stmt_guard num G rt s = true ->
     trans_stmt num G rt s = Some (ds, G') -> eval_stmt V rt s = Some V' ->
     env_ok num (run_defs rho (numbered num ds)) G' V' /\ env_canon G' /\ env_good G'.
   Proof.
-    intros Hok Hcan Hgood Hrt Hne Hg Ht Hv. pose proof (env_good_ne G Hgood) as Htok.
-    destruct s as [x e|e|e|]; cbn [trans_stmt eval_stmt stmt_ne] in *.
+    intros Hok Hcan Hgood Hrt Hg Ht Hv.
+    destruct s as [x e|e|e|]; cbn [trans_stmt eval_stmt] in *.
     - (* Assign *)
-      unfold stmt_guard, stmt_guard_g in Hg. unfold trans_assign in Ht.
+      unfold stmt_guard, stmt_guard_g in Hg. apply andb_true_iff in Hg as [Hsn Hg]. unfold trans_assign in Ht.
       destruct (trans_exp num G e) as [r0|] eqn:Et; [|discriminate]. injection Ht as <- <-.
       apply option_map_some in Hv as (v & Hv & ->).
-      pose proof (trans_exp_sound num rho G V e _ v Hok Hcan Htok Et Hv) as Hs.
-      pose proof (trans_exp_wf num rho G V Hok Hcan Hgood e _ v Et Hv) as W.
-      pose proof (trans_exp_good num rho G V Hok Hcan Hgood e Hne _ v Et Hv) as Gv.
+      pose proof (trans_exp_sound num rho G V e _ v Hok Hcan Hsn Et Hv) as Hs.
+      pose proof (trans_exp_wf num rho G V Hok Hcan Hgood e _ v Hsn Et Hv) as W.
+      pose proof (trans_exp_good num rho G V Hok Hcan Hgood e Hsn _ v Et Hv) as Gv.
       unfold res_guard_g in Hg. rewrite andb_true_r in Hg.
       pose proof (regroup_canon rho x r0 v Hs W) as Hn. rewrite <- (regroup_value_type r0) in Hn.
       destruct (bind_res_sound rho G V x (regroup_value r0) v Hok Hcan (regroup_value_sem rho _ _ Hs) Hn Hg) as [A B].
       split; [exact A|split; [exact B|]]. apply env_good_bind; [exact Hgood|].
       rewrite regroup_value_type. unfold vgood in Gv. now rewrite (sem_type _ _ _ Hs) in Gv.
     - (* Return *)
-      unfold stmt_guard, stmt_guard_g in Hg. unfold trans_return in Ht.
+      unfold stmt_guard, stmt_guard_g in Hg. apply andb_true_iff in Hg as [Hsn Hg]. unfold trans_return in Ht.
       apply obind_some in Ht as (r0 & Et & Ht). apply obind_some in Ht as (r1 & Ec & Ht).
       rewrite Et in Hg. cbn [obind] in Hg. rewrite Ec in Hg.
       destruct (lookup G ret_id); [discriminate|]. injection Ht as <- <-.
       apply obind_some in Hv as (v & Hv & Hv'). apply obind_some in Hv' as (v' & Hc & Hv').
       destruct (lookup V ret_id); [discriminate|]. injection Hv' as <-.
-      pose proof (trans_exp_sound num rho G V e _ v Hok Hcan Htok Et Hv) as Hs.
-      pose proof (trans_exp_wf num rho G V Hok Hcan Hgood e _ v Et Hv) as W.
+      pose proof (trans_exp_sound num rho G V e _ v Hok Hcan Hsn Et Hv) as Hs.
+      pose proof (trans_exp_wf num rho G V Hok Hcan Hgood e _ v Hsn Et Hv) as W.
       destruct (ret_coerce_sound rho rt r0 v r1 v' Hs Ec Hc) as [Hs1 Hty].
       pose proof (ret_coerce_wf rt r0 r1 W Ec) as W1.
       unfold res_guard_g in Hg. rewrite andb_true_r in Hg.
@@ -2191,20 +2157,20 @@ Section Stmt.
 
   Theorem trans_body_sound : forall body rho G V rt ds G' V',
     env_ok num rho G V -> env_canon G -> env_good G -> ty_good rt = true ->
-    forallb stmt_ne body = true -> body_guard num G rt body = true ->
+    body_guard num G rt body = true ->
     trans_body num G rt body = Some (ds, G') -> eval_body V rt body = Some V' ->
     env_ok num (run_defs rho (numbered num ds)) G' V' /\ env_canon G' /\ env_good G'.
   Proof.
-    induction body as [|s body IH]; intros rho G V rt ds G' V' Hok Hcan Hgood Hrt Hne Hg Ht Hv.
+    induction body as [|s body IH]; intros rho G V rt ds G' V' Hok Hcan Hgood Hrt Hg Ht Hv.
     - cbn in Ht, Hv. injection Ht as <- <-. injection Hv as <-. now repeat split.
-    - unfold body_guard in Hg. cbn [trans_body eval_body body_guard_g forallb] in *.
-      apply andb_true_iff in Hg as [Hg1 Hg2]. apply andb_true_iff in Hne as [N1 N2].
+    - unfold body_guard in Hg. cbn [trans_body eval_body body_guard_g] in *.
+      apply andb_true_iff in Hg as [Hg1 Hg2].
       apply obind_some in Ht as ([ds1 G1] & Ht1 & Ht). apply obind_some in Ht as ([ds2 G2] & Ht2 & Ht).
       cbn [fst snd] in *. injection Ht as <- <-. apply obind_some in Hv as (V1 & Hv1 & Hv2).
       rewrite Ht1 in Hg2. cbn [snd] in Hg2.
-      destruct (trans_stmt_sound rho G V rt s ds1 G1 V1 Hok Hcan Hgood Hrt N1 Hg1 Ht1 Hv1) as (Hok1 & Hcan1 & Hgood1).
+      destruct (trans_stmt_sound rho G V rt s ds1 G1 V1 Hok Hcan Hgood Hrt Hg1 Ht1 Hv1) as (Hok1 & Hcan1 & Hgood1).
       unfold numbered. rewrite map_app, run_defs_app. fold (numbered num ds1). fold (numbered num ds2).
-      exact (IH _ _ _ _ _ _ _ Hok1 Hcan1 Hgood1 Hrt N2 Hg2 Ht2 Hv2).
+      exact (IH _ _ _ _ _ _ _ Hok1 Hcan1 Hgood1 Hrt Hg2 Ht2 Hv2).
   Qed.
 End Stmt.
 
@@ -2277,19 +2243,10 @@ Proof.
     destruct Step as [D1 R1]. exact (IH _ _ _ _ _ _ Hw2 D1 R1 Ht2 Hv2).
 Qed.
 
-(* no argument is called _ret; every argument type is ty_good (no empty tuple, no sized component
-   of fewer than 2 bits) *)
+(* no argument is called _ret; every argument type is ty_good (no sized component of fewer than
+   2 bits) *)
 Definition wf_args (args : list (ident * ty)) : bool :=
   forallb (fun a => negb (Nat.eqb (fst a) ret_id)) args && forallb (fun a => ty_good (snd a)) args.
-
-Lemma arg_env_ne args : forallb (fun a : ident * ty => ty_ne (snd a)) args = true -> env_ne (arg_env args).
-Proof.
-  induction args as [|[x t] args IH]; intros H y ty bv Hy; [discriminate|].
-  cbn [forallb snd] in H. apply andb_true_iff in H as [H1 H2].
-  cbn [arg_env map lookup fst snd] in Hy. destruct (Nat.eqb x y).
-  - now injection Hy as <- <-.
-  - now apply (IH H2 y ty bv).
-Qed.
 
 Lemma arg_env_good args : forallb (fun a : ident * ty => ty_good (snd a)) args = true -> env_good (arg_env args).
 Proof.
@@ -2314,13 +2271,13 @@ Qed.
 Theorem trans_fun_sound num rho args rt body vs lf v :
   (forall a b, num a = num b -> a = b) ->
   trans_fun num args rt body = Some lf -> eval_fun args rt body vs = Some v ->
-  wf_args args = true -> ty_good rt = true -> wf_body body = true -> forallb stmt_ne body = true ->
+  wf_args args = true -> ty_good rt = true -> wf_body body = true ->
   body_guard num (arg_env args) rt body = true ->
   args_encoded num rho args vs ->
   lf_ret lf = (rt, arg_names [ret_id] rt) /\
   decode rt (map (fun s => run_defs rho (numbered num (lf_defs lf)) (num s)) (arg_names [ret_id] rt)) = Some v.
 Proof.
-  intros Hinj Ht Hv Hwa Hgrt Hwf Hne Hg Henc. unfold wf_args in Hwa. apply andb_true_iff in Hwa as [Hwa Hwt].
+  intros Hinj Ht Hv Hwa Hgrt Hwf Hg Henc. unfold wf_args in Hwa. apply andb_true_iff in Hwa as [Hwa Hwt].
   unfold trans_fun in Ht.
   destruct (negb (distinct_ids (map fst args))); [discriminate|].
   apply option_map_some in Ht as ([ds G'] & Hb & ->). cbn [lf_ret lf_defs fst snd]. split; [reflexivity|].
@@ -2328,7 +2285,7 @@ Proof.
   destruct (negb (forallb _ (combine args vs))); [discriminate|].
   apply obind_some in Hv as (V' & Hev & Hret).
   destruct (trans_body_sound num Hinj body rho _ _ rt ds G' V' (arg_env_ok num rho args vs Henc) (arg_env_canon args)
-              (arg_env_good args Hwt) Hgrt Hne Hg Hb Hev) as (Hok & Hcan & _).
+              (arg_env_good args Hwt) Hgrt Hg Hb Hev) as (Hok & Hcan & _).
   assert (Hdom0 : dom_sub (combine (map fst args) vs) (arg_env args)).
   { apply negb_false_iff, Nat.eqb_eq in Hlen. clear -Hlen. revert vs Hlen.
     induction args as [|[x t] args IH]; intros [|v0 vs] Hlen y vy Hy; try discriminate.
@@ -2462,21 +2419,37 @@ Definition ex_sub_V : venv := [(1%nat, VT [VT [VB true; VI 2 1]; VB false])].
 Definition ex_sub_num := tab_num [([1;0;0], 0); ([1;0;1;0], 1); ([1;0;1;1], 2); ([1;1], 3)]%nat 9.
 Definition ex_sub_rho : nat -> bool := fun k => Nat.eqb k 0 || Nat.eqb k 1.
 
-Lemma ex_sub_env : env_ok ex_sub_num ex_sub_rho ex_sub_G ex_sub_V /\ env_canon ex_sub_G /\ env_ne ex_sub_G.
+Lemma ex_sub_env : env_ok ex_sub_num ex_sub_rho ex_sub_G ex_sub_V /\ env_canon ex_sub_G.
 Proof.
-  split; [|split; [apply arg_env_canon|apply arg_env_ne; reflexivity]].
+  split; [|apply arg_env_canon].
   apply (arg_env_ok ex_sub_num ex_sub_rho [(1%nat, TTuple [TTuple [TBool; TQint 2]; TBool])]
                     [VT [VT [VB true; VI 2 1]; VB false]]).
   constructor; [vm_compute; reflexivity|constructor].
 Qed.
 
 Lemma subscript_of_tuple_sound num rho G V x p r v :
-  env_ok num rho G V -> env_canon G -> env_ne G ->
+  env_ok num rho G V -> env_canon G -> sub_ne G (ESub x p) = true ->
   trans_exp num G (ESub x p) = Some r -> eval_exp V (ESub x p) = Some v ->
   den rho r = Some v /\ type_of v = fst r.
 Proof.
   intros H1 H2 H3 H4 H5. pose proof (trans_exp_sound num rho G V _ r v H1 H2 H3 H4 H5) as H.
   split; [exact H|]. now apply decode_type in H.
+Qed.
+
+(* (1') what is LEFT of it: a subscript that selects an EMPTY tuple component is still ONE fabricated
+   symbol ("u.0" of u: Tuple[Tuple[()], bool]) typed Tuple[()], for a value that has no bits *)
+Lemma subscript_of_empty_refuted :
+  exists num rho G V e r v, env_ok num rho G V /\ env_canon G /\
+    trans_exp num G e = Some r /\ eval_exp V e = Some v /\ den rho r <> Some v /\ sub_ne G e = false.
+Proof.
+  set (args := [(1%nat, TTuple [TTuple []; TBool])]).
+  exists enc, (fun _ => true), (arg_env args), [(1%nat, VT [VT []; VB true])], (ESub 1%nat [0%nat]). do 2 eexists.
+  refine (conj _ (conj (arg_env_canon args) (conj _ (conj _ (conj _ _))))).
+  - apply (arg_env_ok enc (fun _ => true) args [VT [VT []; VB true]]). constructor; [reflexivity|constructor].
+  - reflexivity.
+  - reflexivity.
+  - cbn. discriminate.
+  - reflexivity.
 Qed.
 
 (* (2) FIXED in /repo (87c4060): a tuple-typed value is bound with the bit names of its type.
@@ -2494,7 +2467,7 @@ Proof.
   destruct (trans_fun enc ex_copy_args TBool ex_copy_body) as [lf|] eqn:E; [|vm_compute in E; discriminate].
   exists lf. split; [reflexivity|]. split.
   - vm_compute in E. injection E as <-. reflexivity.
-  - refine (proj2 (trans_fun_sound enc rho ex_copy_args TBool ex_copy_body vs lf v enc_inj E Hev _ _ _ _ _ Henc));
+  - refine (proj2 (trans_fun_sound enc rho ex_copy_args TBool ex_copy_body vs lf v enc_inj E Hev _ _ _ _ Henc));
       vm_compute; reflexivity.
 Qed.
 
@@ -2511,13 +2484,13 @@ Lemma seq_ok_needed :
     trans_fun enc ex_self_args (TQint 2) ex_self_body = Some lf /\
     eval_fun ex_self_args (TQint 2) ex_self_body vs = Some v /\
     wf_args ex_self_args = true /\ ty_good (TQint 2) = true /\ wf_body ex_self_body = true /\
-    forallb stmt_ne ex_self_body = true /\ args_encoded enc rho ex_self_args vs /\
+    args_encoded enc rho ex_self_args vs /\
     body_guard enc (arg_env ex_self_args) (TQint 2) ex_self_body = false /\
     decode (TQint 2) (map (fun s => run_defs rho (numbered enc (lf_defs lf)) (enc s)) (arg_names [ret_id] (TQint 2)))
       <> Some v.
 Proof.
   exists (rho_of [[1; 0]]%nat), [VI 2 1]. do 2 eexists.
-  refine (conj _ (conj _ (conj _ (conj _ (conj _ (conj _ (conj _ (conj _ _)))))))); try (vm_compute; reflexivity).
+  refine (conj _ (conj _ (conj _ (conj _ (conj _ (conj _ (conj _ _))))))); try (vm_compute; reflexivity).
   - constructor; [vm_compute; reflexivity|constructor].
   - vm_compute. discriminate.
 Qed.
@@ -2526,7 +2499,7 @@ Qed.
    their raw bit lists (Qint ^ Qchar), a value of another kind is cropped to the declared return
    type (`return 'a'` where Qint[2] is declared) *)
 Lemma accepted_without_meaning :
-  (exists num rho G V e r, env_ok num rho G V /\ env_canon G /\ env_ne G /\
+  (exists num rho G V e r, env_ok num rho G V /\ env_canon G /\ sub_ne G e = true /\
      trans_exp num G e = Some r /\ eval_exp V e = None)
   /\ (exists num args rt body lf, trans_fun num args rt body = Some lf /\
         forall vs, eval_fun args rt body vs = None).
@@ -2536,7 +2509,7 @@ Proof.
     set (num := fun s : sname => match s with [1; i] => i | [2; i] => 8 + i | _ => 99 end%nat).
     exists num, (fun _ => false), (arg_env args), [(1%nat, VI 8 0); (2%nat, VC 0)],
            (EBin AoXor (EName 1%nat) (EName 2%nat)). eexists.
-    refine (conj _ (conj (arg_env_canon args) (conj (arg_env_ne args eq_refl) (conj _ eq_refl)))).
+    refine (conj _ (conj (arg_env_canon args) (conj eq_refl (conj _ eq_refl)))).
     + apply (arg_env_ok num (fun _ => false) args [VI 8 0; VC 0]).
       constructor; [vm_compute; reflexivity|]. constructor; [vm_compute; reflexivity|constructor].
     + vm_compute. reflexivity.
@@ -2572,6 +2545,18 @@ Fixpoint frag (e : pexp) : bool :=
   | _ => false
   end.
 
+Lemma frag_sub_ne G : forall e, frag e = true -> sub_ne G e = true.
+Proof.
+  induction e as [x|x p|op l IH|op a IHa|c t f IHc IHt IHf|c|l|l IH|op a b IHa IHb|op a b IHa IHb|t c|a IHa|a IHa|]
+    using pexp_ind2; cbn [frag sub_ne]; intros H; try reflexivity; try discriminate.
+  - rewrite forallb_forall in H |- *. rewrite Forall_forall in IH. intros x Hx. apply IH; [exact Hx|now apply H].
+  - now apply IHa.
+  - apply andb_true_iff in H as [H H3]. apply andb_true_iff in H as [H1 H2]. now rewrite IHc, IHt, IHf.
+  - apply andb_true_iff in H as [H1 H2]. now rewrite IHa, IHb.
+  - destruct op; try discriminate; apply andb_true_iff in H as [H1 H2]; rewrite (IHa H1); try (now rewrite IHb);
+      destruct b; try discriminate; reflexivity.
+Qed.
+
 Lemma ib_kind v : ib_ty (type_of v) = true -> (exists b, v = VB b) \/ (exists w n, v = VI w n /\ (0 < w)%nat).
 Proof.
   destruct v as [b|w n| | |]; cbn; try discriminate; intros H; [left; eauto|right].
@@ -2590,7 +2575,6 @@ Section Total.
   Variables (G : env) (V : venv).
   Hypothesis Hok : env_ok num rho G V.
   Hypothesis Hcan : env_canon G.
-  Hypothesis Htok : env_ne G.
   Hypothesis Hib : ib_env G.
 
   Definition total_at (e : pexp) : Prop :=
@@ -2598,7 +2582,7 @@ Section Total.
     exists v, eval_exp V e = Some v /\ ib_ty (type_of v) = true.
 
   Lemma total_sem e r v : frag e = true -> trans_exp num G e = Some r -> eval_exp V e = Some v -> sem rho r v.
-  Proof. intros F Ht Hv. exact (trans_exp_sound num rho G V e r v Hok Hcan Htok Ht Hv). Qed.
+  Proof. intros F Ht Hv. exact (trans_exp_sound num rho G V e r v Hok Hcan (frag_sub_ne G e F) Ht Hv). Qed.
 
   Lemma total_list l : Forall total_at l -> forallb frag l = true ->
     forall rs, trans_list num G l = Some rs ->
@@ -2769,12 +2753,12 @@ End Total.
 
 (* an accepted expression of the fragment has a value, and denotes it *)
 Theorem trans_exp_total num rho G V e r :
-  env_ok num rho G V -> env_canon G -> env_ne G -> ib_env G -> frag e = true -> trans_exp num G e = Some r ->
+  env_ok num rho G V -> env_canon G -> ib_env G -> frag e = true -> trans_exp num G e = Some r ->
   exists v, eval_exp V e = Some v /\ den rho r = Some v.
 Proof.
-  intros Hok Hcan Htok Hib F Ht.
-  destruct (trans_exp_total_at num rho G V Hok Hcan Htok Hib e F r Ht) as (v & Hv & _).
-  exists v. split; [exact Hv|]. exact (trans_exp_sound num rho G V e r v Hok Hcan Htok Ht Hv).
+  intros Hok Hcan Hib F Ht.
+  destruct (trans_exp_total_at num rho G V Hok Hcan Hib e F r Ht) as (v & Hv & _).
+  exists v. split; [exact Hv|]. exact (trans_exp_sound num rho G V e r v Hok Hcan (frag_sub_ne G e F) Ht Hv).
 Qed.
 
 Lemma arg_env_ib args : forallb (fun a : ident * ty => ib_ty (snd a)) args = true -> ib_env (arg_env args).
@@ -2790,16 +2774,15 @@ Qed.
 (* statements collected for Prop_C01_texp.v                            *)
 (* ================================================================== *)
 Lemma trans_exp_type num rho G V e r v :
-  env_ok num rho G V -> env_canon G -> env_good G ->
+  env_ok num rho G V -> env_canon G -> env_good G -> sub_ne G e = true ->
   trans_exp num G e = Some r -> eval_exp V e = Some v ->
-  type_of v = fst r /\ length (flat (snd r)) = ty_size (fst r) /\ wf_res r
-  /\ (pexp_ne e = true -> ty_good (fst r) = true).
+  type_of v = fst r /\ length (flat (snd r)) = ty_size (fst r) /\ wf_res r /\ ty_good (fst r) = true.
 Proof.
-  intros H1 H2 H3 H4 H5.
-  pose proof (trans_exp_sound num rho G V e r v H1 H2 (env_good_ne G H3) H4 H5) as H.
+  intros H1 H2 H3 Hn H4 H5.
+  pose proof (trans_exp_sound num rho G V e r v H1 H2 Hn H4 H5) as H.
   apply decode_type in H. rewrite map_length in H. destruct H as [A B].
-  repeat split; try assumption; [exact (trans_exp_wf num rho G V H1 H2 H3 e r v H4 H5)|].
-  intros Hn. rewrite <- A. exact (trans_exp_good num rho G V H1 H2 H3 e Hn r v H4 H5).
+  repeat split; try assumption; [exact (trans_exp_wf num rho G V H1 H2 H3 e r v Hn H4 H5)|].
+  rewrite <- A. exact (trans_exp_good num rho G V H1 H2 H3 e Hn r v H4 H5).
 Qed.
 
 Lemma rejects_constants num G :
